@@ -218,9 +218,28 @@ class C09(Oracle):
                                 {"operation": op, "why": refuse})
             return
         if uri is None:
-            # identifier given as a string: which URI it denotes is C03's business
-            if out.status == "ok":
-                self.count("add_bundle_string_id")
+            # identifier given as a string: which URI it denotes is C03's business, but
+            # whatever it denotes, the call either refuses and changes nothing, or adds
+            # exactly one bundle holding exactly the argument's records and leaves every
+            # existing bundle and the document's own records alone
+            gotb = bundle_map(d)
+            if out.status != "ok":
+                if not out.refused:
+                    raise Violation("C09", "add_bundle", "raised", {"operation": op, "error": repr(out.exc)})
+                if gotb != dbundles or Counter(observe.cont_obs(d)) != drecs:
+                    raise Violation("C09", "add_bundle-refusal", "document-changed", {"operation": op})
+                return
+            self.count("add_bundle_string_id")
+            for u, m in dbundles.items():
+                if gotb.get(u) != m:
+                    raise Violation("C09", "add_bundle", "other-bundle-changed",
+                                    {"operation": op, "bundle": u, "spelling": idspec[0]})
+            extra = [u for u in gotb if u not in dbundles]
+            if len(extra) != 1 or gotb[extra[0]] != brecs:
+                raise Violation("C09", "add_bundle", "bundle-ids",
+                                {"operation": op, "new": extra, "spelling": idspec[0]})
+            if Counter(observe.cont_obs(d)) != drecs:
+                raise Violation("C09", "add_bundle", "document-records-changed", {"operation": op})
             return
         if out.status != "ok":
             raise Violation("C09", "add_bundle", "raised", {"operation": op, "error": repr(out.exc)})
